@@ -75,3 +75,90 @@ theorem decDigits_head_pos (n : Nat) (h : 10 ≤ n) : ∀ d, (decDigits n).head?
           exact ih (n/10) (by omega) (by omega) d (by rw [hdd]; simp [hd])
 
 end PSA
+
+namespace PSA
+
+/-! ### canonical decimals print back to themselves -/
+
+theorem digitsVal_nil : digitsVal [] = 0 := rfl
+theorem digitsVal_single (d : Nat) : digitsVal [d] = d - 48 := by simp [digitsVal]
+
+theorem itoa_digit (d : Nat) (h : isDigit d = true) : itoa (d - 48) = [d] := by
+  simp only [isDigit, Bool.and_eq_true, decide_eq_true_eq] at h
+  unfold itoa decDigits
+  have : d - 48 < 10 := by omega
+  simp only [this, ↓reduceDIte, List.map_cons, List.map_nil]
+  congr 1; omega
+
+/-- a digit string whose first digit is not '0' has a positive value -/
+theorem digitsVal_pos (ds : List Nat) (x : Nat) (hx : isDigit x = true) (hx0 : x ≠ 48) :
+    1 ≤ digitsVal (x :: ds) := by
+  induction ds using snoc_induction with
+  | nil =>
+    simp only [isDigit, Bool.and_eq_true, decide_eq_true_eq] at hx
+    rw [digitsVal_single]; omega
+  | snoc ds d ih =>
+    rw [← List.cons_append, digitsVal_append]; omega
+
+theorem itoa_digitsVal_cons (ds : List Nat) (x : Nat) (hx : isDigit x = true) (hx0 : x ≠ 48)
+    (hds : ds.all isDigit = true) : itoa (digitsVal (x :: ds)) = x :: ds := by
+  induction ds using snoc_induction with
+  | nil => rw [digitsVal_single]; exact itoa_digit x hx
+  | snoc ds d ih =>
+    simp only [List.all_append, List.all_cons, List.all_nil, Bool.and_true, Bool.and_eq_true] at hds
+    have hd := hds.2
+    have ih' := ih hds.1
+    have hpos := digitsVal_pos ds x hx hx0
+    simp only [isDigit, Bool.and_eq_true, decide_eq_true_eq] at hd
+    rw [← List.cons_append, digitsVal_append]
+    have hge : ¬ (digitsVal (x :: ds) * 10 + (d - 48) < 10) := by omega
+    have hdiv : (digitsVal (x :: ds) * 10 + (d - 48)) / 10 = digitsVal (x :: ds) := by omega
+    have hmod : (digitsVal (x :: ds) * 10 + (d - 48)) % 10 = d - 48 := by omega
+    unfold itoa at ih' ⊢
+    rw [decDigits]
+    simp only [hge, ↓reduceDIte, hdiv, hmod, List.map_append, List.map_cons, List.map_nil, ih']
+    congr 2; omega
+
+/-- the regexp's canonical decimals are exactly the strings `itoa` prints -/
+theorem itoa_digitsVal (s : Str) (h : canonicalDec s = true) : itoa (digitsVal s) = s := by
+  match s, h with
+  | [d], h => simp only [canonicalDec] at h; rw [digitsVal_single]; exact itoa_digit d h
+  | d :: e :: ds, h =>
+    simp only [canonicalDec, Bool.and_eq_true, bne_iff_ne, ne_eq] at h
+    exact itoa_digitsVal_cons (e :: ds) d h.1.1 h.1.2 h.2
+
+theorem decDigits_all_lt (n : Nat) : (itoa n).all isDigit = true := by
+  simp only [itoa, List.all_map, List.all_eq_true]
+  intro d hd
+  have := decDigits_lt n d hd
+  simp [isDigit]; omega
+
+theorem canonicalDec_itoa (n : Nat) : canonicalDec (itoa n) = true := by
+  by_cases h : n < 10
+  · have : itoa n = [n + 48] := by unfold itoa decDigits; simp [h]
+    rw [this]; simp [canonicalDec, isDigit]; omega
+  · have hne := decDigits_ne_nil n
+    have hall := decDigits_all_lt n
+    have hhead := decDigits_head_pos n (by omega)
+    unfold itoa at hall ⊢
+    cases hd : decDigits n with
+    | nil => exact absurd hd hne
+    | cons x xs =>
+      have hx0 : x ≠ 0 := hhead x (by rw [hd]; rfl)
+      rw [hd] at hall
+      simp only [List.map_cons, List.all_cons, Bool.and_eq_true] at hall
+      cases xs with
+      | nil =>
+        exfalso
+        unfold decDigits at hd
+        simp only [h, ↓reduceDIte] at hd
+        have := decDigits_ne_nil (n / 10)
+        cases h2 : decDigits (n / 10) with
+        | nil => exact this h2
+        | cons y ys => rw [h2] at hd; simp at hd
+      | cons y ys =>
+        simp only [List.map_cons, canonicalDec, Bool.and_eq_true, bne_iff_ne, ne_eq]
+        refine ⟨⟨hall.1, by omega⟩, ?_⟩
+        simpa using hall.2
+
+end PSA
